@@ -87,6 +87,7 @@ func runC07(c *Ctx) {
 	c.c07ArchivingInventsNoPattern()
 	c.c07SiblingComparisonsAgree()
 	c.c07DepthIsTheDepthOfThePath()
+	c.filterLeavesOutOnlyWhatMatches("V20") // the obligation C08/E15: what a listing holds is decided by the patterns alone
 	c.c07EmptyDirectoriesAndDirectorySizes()
 }
 
